@@ -339,6 +339,90 @@ func init() {
 		}
 		return nil
 	}
+	// sync.Map: go1.24's implementation is a hash trie over abi type words and atomics that the
+	// executor cannot interpret; it is modelled by an association list with the documented
+	// Load/Store/LoadOrStore/LoadAndDelete/Delete/Swap/Range/Clear contract. Key comparison is Go's
+	// == on interfaces (symbolic keys fork the path per entry). Range visits in insertion order
+	// (one admissible order; the real map's order is unspecified).
+	smFind := func(fr *frame, m *syncSt, key value) int {
+		for k := range m.keys {
+			eq := fr.i.equalsT(nil, m.keys[k], key)
+			if eq.isTrue() || (!eq.isFalse() && fr.i.ps.branch(eq)) {
+				return k
+			}
+		}
+		return -1
+	}
+	intrinsics["(*sync.Map).Load"] = func(fr *frame, args []value) value {
+		m := syncState(fr, args[0])
+		if k := smFind(fr, m, args[1]); k >= 0 {
+			return tuple{m.vals[k], true}
+		}
+		return tuple{iface{}, false}
+	}
+	intrinsics["(*sync.Map).Store"] = func(fr *frame, args []value) value {
+		m := syncState(fr, args[0])
+		if k := smFind(fr, m, args[1]); k >= 0 {
+			m.vals[k] = args[2]
+			return nil
+		}
+		m.keys, m.vals = append(m.keys, args[1]), append(m.vals, args[2])
+		return nil
+	}
+	intrinsics["(*sync.Map).Swap"] = func(fr *frame, args []value) value {
+		m := syncState(fr, args[0])
+		if k := smFind(fr, m, args[1]); k >= 0 {
+			old := m.vals[k]
+			m.vals[k] = args[2]
+			return tuple{old, true}
+		}
+		m.keys, m.vals = append(m.keys, args[1]), append(m.vals, args[2])
+		return tuple{iface{}, false}
+	}
+	intrinsics["(*sync.Map).LoadOrStore"] = func(fr *frame, args []value) value {
+		m := syncState(fr, args[0])
+		if k := smFind(fr, m, args[1]); k >= 0 {
+			return tuple{m.vals[k], true}
+		}
+		m.keys, m.vals = append(m.keys, args[1]), append(m.vals, args[2])
+		return tuple{args[2], false}
+	}
+	intrinsics["(*sync.Map).LoadAndDelete"] = func(fr *frame, args []value) value {
+		m := syncState(fr, args[0])
+		if k := smFind(fr, m, args[1]); k >= 0 {
+			old := m.vals[k]
+			m.keys = append(append([]value{}, m.keys[:k]...), m.keys[k+1:]...)
+			m.vals = append(append([]value{}, m.vals[:k]...), m.vals[k+1:]...)
+			return tuple{old, true}
+		}
+		return tuple{iface{}, false}
+	}
+	intrinsics["(*sync.Map).Delete"] = func(fr *frame, args []value) value {
+		intrinsics["(*sync.Map).LoadAndDelete"](fr, args)
+		return nil
+	}
+	intrinsics["(*sync.Map).Clear"] = func(fr *frame, args []value) value {
+		m := syncState(fr, args[0])
+		m.keys, m.vals = nil, nil
+		return nil
+	}
+	intrinsics["(*sync.Map).Range"] = func(fr *frame, args []value) value {
+		m := syncState(fr, args[0])
+		keys, vals := append([]value{}, m.keys...), append([]value{}, m.vals...)
+		for k := range keys {
+			switch c := call(fr.i, fr, token.NoPos, args[1], []value{keys[k], vals[k]}).(type) {
+			case bool:
+				if !c {
+					return nil
+				}
+			case symB:
+				if !fr.i.ps.branch(c.t) {
+					return nil
+				}
+			}
+		}
+		return nil
+	}
 	intrinsics["(*sync.Pool).Get"] = func(fr *frame, args []value) value {
 		p := args[0].(*value)
 		st := (*p).(structure)
@@ -431,6 +515,8 @@ type syncSt struct {
 	writer  int
 	readers int
 	count   int
+	keys    []value // sync.Map model: association list (insertion order)
+	vals    []value
 	vc      vclock // WaitGroup: history published by Done
 }
 
